@@ -810,7 +810,50 @@ def r1712(db, ctx):
     ctx.floor('R17.12', n, 4, 'column fills of the matrix constructors')
 
 
+def r1713(db, ctx):
+    ctx.rule('R17.13', 'Loader: under protein=True every reader is instantiated for the Protein alphabet, under protein=False for Dna (the raw JASPAR '
+                       'reader, DNA by format, is only reached with protein=False)')
+    try:
+        f = db.fn('lightmotif_py::io::Loader::__init__')
+    except KeyError:
+        ctx.fail('R17.13', 'lightmotif_py::io::Loader::__init__', 'anchor', 'reason=anchor-missing')
+        return
+    R = X.Rec(f)
+    # the `protein` parameter: the bool parameter of the constructor
+    bools = [i for i in range(1, (f.raw.get('arg_count') or 0) + 1) if f.local_ty(i) == 'bool']
+    if len(bools) != 1:
+        ctx.fail('R17.13', f, 'protein flag', f'reason=unrecognised-shape: {len(bools)} bool parameters')
+        return
+    flag = ('p', bools[0])
+    n = 0
+    for bi, t in f.calls():
+        c = f.callee_short(t) or ''
+        if not (c.startswith('lightmotif_io::') and c.endswith('::read')):
+            continue
+        ga = t.get('gargs') or []
+        alpha = 'Protein' if any(str(g_).endswith('abc::Protein') for g_ in ga) else 'Dna' if any(str(g_).endswith('abc::Dna') for g_ in ga) else None
+        if alpha is None and c.endswith('jaspar::read'):
+            alpha = 'Dna'
+        truth = None
+        for r in G.relations(f, R, bi):
+            if r[0] in ('true', 'false') and norm(r[1]) == flag:
+                truth = r[0] == 'true'
+            if r[0] == 'switch' and norm(r[1]) == flag:
+                truth = r[2] in (('eq', 1), ('notin', [0]))
+        fmt = c.split('::')[1]
+        if alpha is None or truth is None:
+            ctx.fail('R17.13', f, f'{fmt} reader', f'reason=unrecognised-shape: alphabet {alpha}, protein flag on the path {truth}', span=t['span'])
+        elif (alpha == 'Protein') != truth:
+            ctx.fail('R17.13', f, f'{fmt} reader', f'with protein={truth} the {fmt} reader is instantiated for the {alpha} alphabet: the file is parsed with the wrong symbol table '
+                     '(rows of the other alphabet end the matrix early or are rejected)', span=t['span'])
+        else:
+            n += 1
+            ctx.ok('R17.13', f, f'{fmt}: protein={truth} -> {alpha}')
+    ctx.floor('R17.13', n, 7, 'reader instantiations of the loader')
+
+
 def run(db, ctx):
+    r1713(db, ctx)
     r1712(db, ctx)
     r1711(db, ctx)
     r1710(db, ctx)
